@@ -455,6 +455,10 @@ func init() {
 		if len(good) > 1 {
 			samples = append(samples, good[len(good)/3], good[len(good)-1])
 		}
+		// the verdict of an aborted chunked transfer that returns late must not replace
+		// the error the backend returns for the next message (gated schedules, Verdict.tla)
+		vst, vsc := verdictFamily(run)
+		fmt.Printf("C17: Verdict.tla %d states; %d gated stale-verdict schedules validated by TLC\n", vst, vsc)
 		nsent := c17SharedFamily(run)
 		fmt.Printf("C17: %d LMTP conversations in which the backend returns one sentinel *SMTPError for every recipient and again from a later callback\n", nsent)
 		// an error is also owed when the message stopped arriving (MC_Idle: the reader's
